@@ -20,9 +20,9 @@ DEFAULT_ASSUMPTIONS = [
 ASSUMPTIONS = {}
 
 
-def vrt(tu, scenarios, bound=2, unbounded=False, race_oracle=False, workers=16, ignore=None):
+def vrt(tu, scenarios, bound=2, unbounded=False, race_oracle=False, workers=16, ignore=None, max_viol=None):
     return dict(kind='vrt', tu=tu, scenarios=scenarios, bound=bound, unbounded=unbounded, race_oracle=race_oracle, workers=workers,
-                ignore=ignore or [])
+                ignore=ignore or [], max_viol=max_viol)
 
 
 def seq(tu, args=None, ignore=None):
@@ -77,6 +77,17 @@ def jobs(pid, tier):
                     vrt('C17', [r'sf2_(promfn|futfn)_(val|drop)_(wait-coro|coro-drop|drop-drop|copydrop-poll|coro-coro|wait-drop)_.*'], bound=2, workers=2)]
         return [vrt('C17', [r'sf1_.*', r'sf_copy_before_init'], unbounded=True, workers=2),
                 vrt('C17', [r'sf2_.*'], bound=3, workers=4)]
+    if pid == 'C11':
+        OKK = r'(coawait|runfn|runfnbig|detached|detachedbig)'
+        LOST = r'(coawaitfut|runasync|resumesp)'
+        if q:
+            return [vrt('C11', [rf'pool_w[12]_{OKK}_(stop|dtor|selfstop)'], bound=2, workers=2),
+                    vrt('C11', [rf'pool_w1_{OKK}-{OKK}_(stop|dtor|selfstop)', r'pool_w2_(coawait-runfn|coawait-detachedbig|runfnbig-detached|coawait-coawait)_(stop|selfstop)'], bound=2, workers=4),
+                    vrt('C11', [rf'pool_w1_{LOST}_(stop|dtor)'], bound=2, workers=2, max_viol=10000000)]
+        return [vrt('C11', [rf'pool_w[123]_{OKK}_(stop|dtor|selfstop)'], bound=3, workers=2),
+                vrt('C11', [rf'pool_w[12]_{OKK}-{OKK}_(stop|dtor|selfstop)'], bound=3, workers=8),
+                vrt('C11', [rf'pool_w3_{OKK}-{OKK}_(stop|selfstop)'], bound=1, workers=8),
+                vrt('C11', [rf'pool_w[12]_{LOST}_(stop|dtor|selfstop)', rf'pool_w1_{OKK}-{LOST}_stop'], bound=2, workers=4, max_viol=10000000)]
     if pid == 'C10':
         return [seq('C10')]
     if pid == 'C09':
